@@ -487,6 +487,7 @@ type Contract struct {
 	Arith      string // "" (math) or "wrap64"
 	Float      string // "" (exact reals) or "xreal" (extended reals with NaN/Inf)
 	Asserts    []*Clause // assert_at
+	ChanInvs   []*Clause // chaninv <elem type> : P(elem)   assumed at every receive, proved at every send of a channel of that element type
 	Hints      []*Clause // proved at every return with the locals in scope, then assumed for the postconditions (not visible to callers)
 	Covers     []*Clause
 	Line       int
@@ -496,6 +497,7 @@ type Contract struct {
 	NoTerm     bool
 	Params     []string // for extern contracts: parameter names
 	AllowExit  bool
+	MakeLimit  bool // opt-in: every make([]T, n) must also prove n*sizeof(T) <= 2^48 (runtime allocation limit)
 }
 
 type PureFunc struct {
@@ -523,8 +525,14 @@ type Lemma struct {
 	Params   []SVarDecl
 	Requires []*Clause
 	Ensures  []*Clause
+	Cases    []LemmaCase // `cases i 0 3`: integer parameter enumerated over lo..hi, one obligation per combination
 	Pkg      string
 	Line     int
+}
+
+type LemmaCase struct {
+	Param  string
+	Lo, Hi int64
 }
 
 type TableDecl struct {
@@ -547,8 +555,8 @@ type SpecFile struct {
 var clauseKeywords = map[string]bool{
 	"func": true, "pure": true, "opaque": true, "props": true, "requires": true, "ensures": true, "modifies": true,
 	"loop": true, "invariant": true, "decreases": true, "assert_at": true, "table": true, "axiom": true,
-	"lemma": true, "inline": true, "hint": true, "arith": true, "trusted": true, "cover": true, "note": true,
-	"maypanic": true, "noauto": true, "float": true, "ghostzero": true, "params": true, "allowexit": true, "extern": true,
+	"lemma": true, "inline": true, "hint": true, "chaninv": true, "arith": true, "trusted": true, "cover": true, "note": true,
+	"maypanic": true, "noauto": true, "cases": true, "float": true, "ghostzero": true, "params": true, "allowexit": true, "extern": true, "makelimit": true,
 }
 
 // parseTags parses an optional "[C01,C02]" or "[name]" prefix
@@ -682,6 +690,17 @@ func ParseSpecFile(path, pkg, content string) (*SpecFile, error) {
 			} else if len(f) == 3 {
 				sf.GhostZero = append(sf.GhostZero, [3]string{f[0], f[1], f[2]})
 			}
+		case "cases":
+			f := strings.Fields(rest)
+			if curLemma == nil || len(f) != 3 {
+				return nil, fmt.Errorf("%s:%d: 'cases <param> <lo> <hi>' belongs to a lemma", path, l.line)
+			}
+			lo, e1 := strconv.ParseInt(f[1], 10, 64)
+			hi, e2 := strconv.ParseInt(f[2], 10, 64)
+			if e1 != nil || e2 != nil || hi < lo || hi-lo > 63 {
+				return nil, fmt.Errorf("%s:%d: cases: bad range", path, l.line)
+			}
+			curLemma.Cases = append(curLemma.Cases, LemmaCase{Param: f[0], Lo: lo, Hi: hi})
 		case "table":
 			f := strings.Fields(rest)
 			sf.Tables = append(sf.Tables, &TableDecl{Global: f[0], Pkg: pkg, Props: f[1:]})
@@ -715,6 +734,19 @@ func ParseSpecFile(path, pkg, content string) (*SpecFile, error) {
 				cur.Requires = append(cur.Requires, c)
 			} else {
 				cur.Ensures = append(cur.Ensures, c)
+			}
+		case "chaninv":
+			j := strings.Index(rest, ":")
+			if j < 0 {
+				return nil, fmt.Errorf("%s:%d: chaninv needs '<element type> : <expr>'", path, l.line)
+			}
+			c, err := mkClause(kw, rest[j+1:], l.line)
+			if err != nil {
+				return nil, err
+			}
+			c.Name = strings.TrimSpace(rest[:j])
+			if cur != nil {
+				cur.ChanInvs = append(cur.ChanInvs, c)
 			}
 		case "hint":
 			c, err := mkClause(kw, rest, l.line)
@@ -830,6 +862,10 @@ func ParseSpecFile(path, pkg, content string) (*SpecFile, error) {
 		case "allowexit":
 			if cur != nil {
 				cur.AllowExit = true
+			}
+		case "makelimit":
+			if cur != nil {
+				cur.MakeLimit = true
 			}
 		case "note":
 			if cur != nil {
